@@ -248,3 +248,289 @@ Section GenericStream2.
         intros [Hc0 Hfin]. destruct (Hf Hfin); auto.
   Qed.
 End GenericStream2.
+
+(* Runs with the retrying consumer *)
+Lemma takewhile_nil_dropwhile {A} (f : A -> bool) l : takewhile f l = [] -> dropwhile f l = l.
+Proof. destruct l as [|x t]; simpl; [reflexivity|]. destruct (f x); [discriminate|reflexivity]. Qed.
+
+(* what a run will finally be reported as: the items already taken plus what is still taken *)
+Definition take_more (k : option nat) (acc tw : list Z) : list Z :=
+  match k with
+  | Some k => acc ++ firstn (k - length acc) tw
+  | None => acc ++ tw
+  end.
+
+Definition take_stop (k : option nat) (acc : list Z) : bool :=
+  match k with Some k => (k <=? length acc)%nat | None => false end.
+
+Lemma take_more_stop k acc tw : take_stop k acc = true -> take_more k acc tw = acc.
+Proof.
+  destruct k as [k|]; simpl; [|discriminate]. intros H. apply Nat.leb_le in H.
+  replace (k - length acc)%nat with O by lia. simpl. apply app_nil_r.
+Qed.
+
+Lemma take_more_nil k acc : take_more k acc [] = acc.
+Proof. destruct k; simpl; [rewrite firstn_nil|]; apply app_nil_r. Qed.
+
+Lemma take_more_step k acc x tw :
+  take_stop k acc = false -> take_more k (acc ++ [x]) tw = take_more k acc (x :: tw).
+Proof.
+  destruct k as [k|]; simpl; intros H.
+  - apply Nat.leb_gt in H. rewrite app_length. simpl.
+    replace (k - length acc)%nat with (S (k - (length acc + 1))) by lia.
+    simpl. rewrite <- app_assoc. reflexivity.
+  - rewrite <- app_assoc. reflexivity.
+Qed.
+
+Lemma take_more_fresh k tw : take_more k [] tw = take_opt k tw.
+Proof. destruct k; simpl; [rewrite Nat.sub_0_r|]; reflexivity. Qed.
+
+Section GenericStreamRuns.
+  Context {St : Type} (ae : bool) (nx : St -> ret Z St).
+  Variables (den : St -> list Z) (fin ok : St -> Prop).
+  Hypothesis Hnx : contract ae nx den fin ok.
+  Variable r : rel.
+  Notation same := (rel_eval r).
+  Notation pkd := (pkden den).
+  Notation pkf := (pkfin fin).
+  Notation pko := (pkok ok).
+
+  Lemma sruns_inner_ok prev p o p' ev :
+    pko p -> sruns_inner nx r prev p = (o, p', ev) ->
+    pko p' /\ (pkf p -> pkf p' /\ quiet ae o) /\
+    match o with
+    | Item x => same prev x = true /\ pkd p = x :: pkd p'
+    | End => pkd p' = pkd p /\ takewhile (same prev) (pkd p) = []
+    | Err _ => ae = true /\ pkd p' = pkd p
+    | Pan => False
+    | Out => True
+    end.
+  Proof.
+    intros Hok Hc. unfold sruns_inner in Hc.
+    destruct (ipk_peek nx p) as [[o1 p1] ev1] eqn:E1.
+    destruct (ipk_peek_ok ae nx den fin ok Hnx _ _ _ _ Hok E1) as (Hok1 & Hf1 & Hp1).
+    destruct o1 as [x| | | |].
+    - destruct Hp1 as (Hd1 & Hh1 & Hc1).
+      assert (Hx : pkd p1 = x :: den (pk_in p1)).
+      { unfold pkden. rewrite Hh1, Hc1. reflexivity. }
+      destruct (same prev x) eqn:Es.
+      + destruct p1 as [has1 curr1 s1]. simpl in Hh1, Hc1. subst has1 curr1.
+        unfold ipk_next in Hc. simpl in Hc. inv_ret Hc. simpl.
+        split; [exact Hok1|]. split.
+        * intros Hfin. destruct (Hf1 Hfin) as [_ []].
+        * split; [exact Es|]. rewrite <- Hd1. exact Hx.
+      + inv_ret Hc. simpl. split; [exact Hok1|]. split.
+        * intros Hfin. destruct (Hf1 Hfin) as [_ []].
+        * split; [exact Hd1|]. rewrite <- Hd1, Hx. simpl. rewrite Es. reflexivity.
+    - inv_ret Hc. simpl. destruct Hp1 as (Hd & Hd' & Hfin').
+      split; [exact Hok1|]. split; [auto|]. rewrite Hd, Hd'. auto.
+    - inv_ret Hc. simpl. split; [exact Hok1|]. split; [exact Hf1|exact Hp1].
+    - destruct Hp1.
+    - inv_ret Hc. simpl. split; [exact Hok1|]. split; [exact Hf1|exact I].
+  Qed.
+
+  Lemma sruns_drain_ok n prev : forall p o p' ev,
+    pko p -> sruns_drain nx n r prev p = (o, p', ev) ->
+    pko p' /\ (pkf p -> pkf p' /\ quiet ae o) /\
+    match o with
+    | Item _ => False
+    | End => pkd p' = dropwhile (same prev) (pkd p)
+    | Err _ => ae = true /\ dropwhile (same prev) (pkd p') = dropwhile (same prev) (pkd p)
+    | Pan => False
+    | Out => True
+    end.
+  Proof.
+    induction n as [|n IH]; intros p o p' ev Hok Hc; simpl in Hc.
+    - inv_ret Hc. simpl. auto.
+    - destruct (sruns_inner nx r prev p) as [[o1 p1] ev1] eqn:E1.
+      destruct (sruns_inner_ok _ _ _ _ _ Hok E1) as (Hok1 & Hf1 & Hp1).
+      destruct o1 as [x| | | |].
+      + destruct (sruns_drain nx n r prev p1) as [[o2 p2] ev2] eqn:E2.
+        simpl in Hc. inv_ret Hc.
+        destruct (IH _ _ _ _ Hok1 E2) as (Hok2 & Hf2 & Hp2).
+        destruct Hp1 as [Hs Hd]. split; [exact Hok2|]. split.
+        * intros Hfin. destruct (Hf1 Hfin) as [_ []].
+        * rewrite Hd. simpl. rewrite Hs. exact Hp2.
+      + inv_ret Hc. simpl. destruct Hp1 as [Hd Htw].
+        split; [exact Hok1|]. split; [exact Hf1|].
+        rewrite Hd. symmetry. apply takewhile_nil_dropwhile. exact Htw.
+      + inv_ret Hc. simpl. destruct Hp1 as [Ha Hd].
+        split; [exact Hok1|]. split; [exact Hf1|]. rewrite Hd. auto.
+      + destruct Hp1.
+      + inv_ret Hc. simpl. split; [exact Hok1|]. split; [exact Hf1|exact I].
+  Qed.
+
+  Lemma sruns_take_ok n k prev : forall acc p o acc' p' ev,
+    pko p -> sruns_take nx n r k acc prev p = (o, (acc', p'), ev) ->
+    pko p' /\
+    match o with
+    | Item l => l = take_more k acc (takewhile (same prev) (pkd p)) /\
+                dropwhile (same prev) (pkd p') = dropwhile (same prev) (pkd p)
+    | End => False
+    | Err _ => ae = true /\
+               take_more k acc' (takewhile (same prev) (pkd p'))
+               = take_more k acc (takewhile (same prev) (pkd p)) /\
+               dropwhile (same prev) (pkd p') = dropwhile (same prev) (pkd p)
+    | Pan => False
+    | Out => True
+    end.
+  Proof.
+    induction n as [|n IH]; intros acc p o acc' p' ev Hok Hc; simpl in Hc.
+    - inv_ret Hc. auto.
+    - fold (take_stop k acc) in Hc. destruct (take_stop k acc) eqn:Est.
+      + inv_ret Hc. split; [exact Hok|]. rewrite (take_more_stop _ _ _ Est). auto.
+      + destruct (sruns_inner nx r prev p) as [[o1 p1] ev1] eqn:E1.
+        destruct (sruns_inner_ok _ _ _ _ _ Hok E1) as (Hok1 & Hf1 & Hp1).
+        destruct o1 as [x| | | |].
+        * destruct (sruns_take nx n r k (acc ++ [x]) prev p1) as [[o2 [acc2 p2]] ev2] eqn:E2.
+          simpl in Hc. inv_ret Hc.
+          destruct (IH _ _ _ _ _ _ Hok1 E2) as (Hok2 & Hp2).
+          destruct Hp1 as [Hs Hd]. split; [exact Hok2|].
+          rewrite Hd. simpl. rewrite Hs. rewrite <- (take_more_step k acc x _ Est).
+          exact Hp2.
+        * inv_ret Hc. destruct Hp1 as [Hd Htw]. split; [exact Hok1|].
+          rewrite Htw, take_more_nil, Hd. auto.
+        * inv_ret Hc. simpl. destruct Hp1 as [Ha Hd]. split; [exact Hok1|].
+          rewrite Hd. auto.
+        * destruct Hp1.
+        * inv_ret Hc. simpl. auto.
+  Qed.
+
+  Definition srden (k : option nat) (w : option Z * option (list Z) * pk St) : list (list Z) :=
+    let '(cur, pend, p) := w in
+    match pend, cur with
+    | Some acc, Some prev =>
+        take_more k acc (takewhile (same prev) (pkd p))
+        :: map (take_opt k) (spec_runs same (dropwhile (same prev) (pkd p)))
+    | _, _ =>
+        map (take_opt k)
+            (spec_runs same
+               (match cur with Some prev => dropwhile (same prev) (pkd p) | None => pkd p end))
+    end.
+  Definition srfin (w : option Z * option (list Z) * pk St) : Prop :=
+    snd (fst w) = None /\ pkf (snd w).
+  Definition srok (w : option Z * option (list Z) * pk St) : Prop := pko (snd w).
+
+  (* the part of sruns that takes from the run started by x *)
+  Lemma sruns_takepart n k x acc p2 ev0 o w' ev :
+    pko p2 ->
+    (let '(o3, (acc3, p3), ev3) := sruns_take nx n r k acc x p2 in
+     match o3 with
+     | Item l => (Item l, (Some x, None, p3), ev0 ++ ev3)
+     | _ => (pass o3, (Some x, Some acc3, p3), ev0 ++ ev3)
+     end) = (o, w', ev) ->
+    srok w' /\ post ae (srden k) srfin (Some x, Some acc, p2) o w'.
+  Proof.
+    intros Hok Hc.
+    destruct (sruns_take nx n r k acc x p2) as [[o3 [acc3 p3]] ev3] eqn:E3.
+    destruct (sruns_take_ok _ _ _ _ _ _ _ _ _ Hok E3) as (Hok3 & Hp3).
+    destruct o3 as [l| | | |]; try (destruct Hp3; fail).
+    - inv_ret Hc. split; [exact Hok3|]. simpl. destruct Hp3 as [Hl Hd].
+      rewrite Hl, Hd. reflexivity.
+    - inv_ret Hc. split; [exact Hok3|]. simpl. destruct Hp3 as (Ha & Ht & Hd).
+      split; [exact Ha|]. rewrite Ht, Hd. reflexivity.
+    - inv_ret Hc. split; [exact Hok3|]. exact I.
+  Qed.
+
+  Lemma sruns_ok n k :
+    contract ae (fun w => let '(cur, pend, p) := w in sruns nx n r k cur pend p)
+             (srden k) srfin srok.
+  Proof.
+    unfold contract. intros [[cur pend] p] o w' ev Hok Hc. unfold srok in Hok. simpl in Hok.
+    assert (Hmain :
+      (let '(o1, p1, ev1) :=
+         match cur with
+         | Some prev => sruns_drain nx n r prev p
+         | None => (End, p, [])
+         end in
+       match o1 with
+       | End =>
+           let '(o2, p2, ev2) := ipk_peek nx p1 in
+           match o2 with
+           | Item x =>
+               let '(o3, (acc3, p3), ev3) := sruns_take nx n r k [] x p2 in
+               match o3 with
+               | Item l => (Item l, (Some x, None, p3), (ev1 ++ ev2) ++ ev3)
+               | _ => (pass o3, (Some x, Some acc3, p3), (ev1 ++ ev2) ++ ev3)
+               end
+           | _ => (pass o2, (None, None, p2), ev1 ++ ev2)
+           end
+       | _ => (pass o1, (cur, None, p1), ev1)
+       end) = (o, w', ev) ->
+      srok w' /\ post ae (srden k) srfin (cur, None, p) o w' /\
+      (pkf p -> srfin w' /\ quiet ae o)).
+    { clear Hc. intros Hc.
+      assert (Hdr : exists o1 p1 ev1,
+                 match cur with
+                 | Some prev => sruns_drain nx n r prev p
+                 | None => (End, p, [])
+                 end = (o1 : res unit, p1, ev1) /\
+                 pko p1 /\ (pkf p -> pkf p1 /\ quiet ae o1) /\
+                 match o1 with
+                 | Item _ => False
+                 | End => srden k (None, None, p1) = srden k (cur, None, p)
+                 | Err _ => ae = true /\ srden k (cur, None, p1) = srden k (cur, None, p)
+                 | Pan => False
+                 | Out => True
+                 end).
+      { destruct cur as [prev|].
+        - destruct (sruns_drain nx n r prev p) as [[o1 p1] ev1] eqn:E1.
+          destruct (sruns_drain_ok _ _ _ _ _ _ Hok E1) as (Hok1 & Hf1 & Hp1).
+          exists o1, p1, ev1. split; [reflexivity|]. split; [exact Hok1|]. split; [exact Hf1|].
+          destruct o1; auto.
+          + simpl. rewrite Hp1. reflexivity.
+          + destruct Hp1 as [Ha Hd]. split; [exact Ha|]. simpl. rewrite Hd. reflexivity.
+        - exists End, p, []. split; [reflexivity|]. split; [exact Hok|]. simpl. auto. }
+      destruct Hdr as (o1 & p1 & ev1 & Hdr & Hok1 & Hf1 & Hp1). rewrite Hdr in Hc. clear Hdr.
+      destruct o1 as [u| | | |]; try (destruct Hp1; fail).
+      - destruct (ipk_peek nx p1) as [[o2 p2] ev2] eqn:E2.
+        destruct (ipk_peek_ok ae nx den fin ok Hnx _ _ _ _ Hok1 E2) as (Hok2 & Hf2 & Hp2).
+        assert (Hsh : forall o w', post ae (srden k) srfin (None, None, p1) o w' ->
+                                   post ae (srden k) srfin (cur, None, p) o w').
+        { intros o0 w0. apply post_shift. symmetry. exact Hp1. }
+        destruct o2 as [x| | | |].
+        + destruct Hp2 as (Hd2 & Hh2 & Hc2).
+          assert (Hx : pkd p2 = x :: den (pk_in p2)).
+          { unfold pkden. rewrite Hh2, Hc2. reflexivity. }
+          destruct (sruns_takepart n k x [] p2 (ev1 ++ ev2) o w' ev Hok2 Hc) as [Hokw Hpw].
+          split; [exact Hokw|]. split.
+          * apply Hsh.
+            apply (post_shift ae (srden k) _ (None, None, p1) (Some x, Some [], p2));
+              [|exact Hpw].
+            simpl. rewrite <- Hd2, Hx, spec_runs_cons. simpl. rewrite rel_refl.
+            rewrite take_more_fresh. reflexivity.
+          * intros Hfin. destruct (Hf1 Hfin) as [Hfin1 _]. destruct (Hf2 Hfin1) as [_ []].
+        + inv_ret Hc. destruct Hp2 as (Hd & Hd' & Hfin2).
+          split; [exact Hok2|]. split.
+          * apply (Hsh End (None, None, p2)). simpl. rewrite Hd, Hd'. simpl.
+            split; [reflexivity|]. split; [reflexivity|]. split; [reflexivity|exact Hfin2].
+          * intros _. split; [split; [reflexivity|exact Hfin2]|exact I].
+        + inv_ret Hc. destruct Hp2 as [Ha Hd]. split; [exact Hok2|]. split.
+          * apply (Hsh (Err e) (None, None, p2)). simpl. rewrite Hd. auto.
+          * intros Hfin. destruct (Hf1 Hfin) as [Hfin1 _]. destruct (Hf2 Hfin1) as [Hfin2 Hq].
+            split; [split; [reflexivity|exact Hfin2]|exact Hq].
+        + destruct Hp2.
+        + inv_ret Hc. split; [exact Hok2|]. split; [exact I|].
+          intros Hfin. destruct (Hf1 Hfin) as [Hfin1 _]. destruct (Hf2 Hfin1) as [Hfin2 Hq].
+          split; [split; [reflexivity|exact Hfin2]|exact I].
+      - inv_ret Hc. destruct Hp1 as [Ha Hd]. split; [exact Hok1|]. split.
+        + simpl. split; [exact Ha|exact Hd].
+        + intros Hfin. destruct (Hf1 Hfin) as [Hfin1 Hq].
+          split; [split; [reflexivity|exact Hfin1]|exact Hq].
+      - inv_ret Hc. split; [exact Hok1|]. split; [exact I|].
+        intros Hfin. destruct (Hf1 Hfin) as [Hfin1 Hq].
+        split; [split; [reflexivity|exact Hfin1]|exact I]. }
+    unfold sruns in Hc.
+    destruct pend as [acc|]; [destruct cur as [prev|]|].
+    - (* in the middle of a run *)
+      destruct (sruns_takepart n k prev acc p [] o w' ev Hok Hc) as [Hokw Hpw].
+      split; [exact Hokw|]. split; [exact Hpw|]. intros [Hx _]. discriminate Hx.
+    - (* pend without a current run: behaves like pend = None *)
+      destruct (Hmain Hc) as (H1 & H2 & H3). split; [exact H1|]. split.
+      + apply (post_shift ae (srden k) _ (None, Some acc, p) (None, None, p));
+          [reflexivity|exact H2].
+      + intros [Hx _]. discriminate Hx.
+    - destruct (Hmain Hc) as (H1 & H2 & H3). split; [exact H1|]. split; [exact H2|].
+      intros [_ Hfin]. exact (H3 Hfin).
+  Qed.
+End GenericStreamRuns.
